@@ -2,5 +2,7 @@
 package all
 
 import (
+	_ "verif/h/c04"
+	_ "verif/h/c05"
 	_ "verif/h/c18"
 )
